@@ -2117,3 +2117,86 @@ def sized_truth(R, RID, modules=None):
                      construct='truth test of %s in %s' % (U(e), fi.qual))
     R.ob(RID, 'truth tests scanned', n_tests >= 100, '%d branch tests scanned, classes with a length: %s' % (n_tests, sorted(sized)),
          func=None, node=None, construct='sized truth scan')
+
+
+# ------------------------------------------------------------------------------ definite assignment
+def maybe_unbound(R, RID, modules=('session', 'websocket', 'stream', 'parser', 'frame_parser', 'persist', 'proxy', 'frame',
+                                   'message', 'response', 'compression')):
+    """Every read of a local happens after an assignment on every path (exception edges included): a path on which a
+    local is still unbound raises UnboundLocalError - an exception no handler of the package expects (flag-controlled
+    restructurings of try blocks are where this appears: `if fail_reason:` false for an empty message)."""
+    from ..dataflow import defs_of_node
+    n_fn = 0
+    for key, cx in sorted(R.types.ctxs.items(), key=lambda kv: str(kv[0])):
+        fi = cx.func
+        if fi.module.name not in modules or (fi.cls is not None and cx.recv != fi.cls.qual):
+            continue
+        fn = fi.node
+        params = set(a.arg for a in ast.walk(fn.args) if isinstance(a, ast.arg))
+        assigned = set()
+        for n in own_nodes(fn):
+            if isinstance(n, ast.Name) and isinstance(n.ctx, ast.Store):
+                assigned.add(n.id)
+            elif isinstance(n, ast.ExceptHandler) and n.name:
+                assigned.add(n.name)
+            elif isinstance(n, (ast.FunctionDef, ast.ClassDef)):
+                assigned.add(n.name)
+            elif isinstance(n, (ast.Import, ast.ImportFrom)):
+                for a in n.names:
+                    assigned.add((a.asname or a.name).split('.')[0])
+        if any(isinstance(n, (ast.Global, ast.Nonlocal)) for n in own_nodes(fn)):
+            continue
+        locs = assigned - params
+        if not locs:
+            continue
+        n_fn += 1
+        g = R.cfg(fi.qual, cx.recv, fault='arbitrary')
+        nodes = g.live_nodes()
+        # names bound inside comprehensions / lambdas are their own scope
+        inner_bound = set()
+        for n in own_nodes(fn):
+            if isinstance(n, (ast.ListComp, ast.SetComp, ast.DictComp, ast.GeneratorExp)):
+                for gen in n.generators:
+                    for x in ast.walk(gen.target):
+                        if isinstance(x, ast.Name):
+                            inner_bound.add(x.id)
+        ALL = frozenset(locs)
+        IN = {n: ALL for n in nodes}
+        IN[g.entry] = frozenset()
+        gen_ = {n: frozenset(x for x in defs_of_node(n) if x in locs) for n in nodes}
+        work = list(nodes)
+        it = 0
+        while work:
+            it += 1
+            if it > 50000:
+                break
+            n = work.pop()
+            out_norm = IN[n] | gen_[n]
+            # a handler variable is unbound again when the handler is left (py3); ignored (conservative for reads inside)
+            for (m, l) in n.succ:
+                if m not in IN:
+                    continue
+                contrib = IN[n] if l.startswith('exc:') else out_norm
+                new = IN[m] & contrib if m is not g.entry else IN[m]
+                if new != IN[m]:
+                    IN[m] = new
+                    work.append(m)
+        reported = set()
+        for n in nodes:
+            roots = list(n.exprs or ([n.ast] if n.ast is not None and n.kind in ('stmt', 'test', 'yield', 'forinit') else []))
+            if n.kind == 'stmt' and isinstance(n.ast, ast.AugAssign):
+                roots.append(n.ast.target)
+            for r in roots:
+                if r is None:
+                    continue
+                for x in walk_no_nested(r):
+                    if isinstance(x, ast.Name) and isinstance(x.ctx, ast.Load) and x.id in locs and x.id not in inner_bound \
+                            and x.id not in IN[n] and (fi.qual, x.id) not in reported:
+                        # reachable at all?
+                        reported.add((fi.qual, x.id))
+                        R.ob(RID, 'local %s bound before use in %s' % (x.id, fi.qual), False,
+                             '`%s` can be read at `%s` on a path where it was never assigned: UnboundLocalError escapes '
+                             'instead of the event / error the callers expect' % (x.id, n.text()[:50]), func=fi, node=x,
+                             construct='possibly unbound %s in %s' % (x.id, fi.qual))
+    R.ob(RID, 'definite-assignment scan', n_fn >= 40, '%d functions with locals scanned' % n_fn, func=None, node=None,
+         construct='unbound local scan')
